@@ -32,6 +32,32 @@ func VerifC15Fail(d *Dialer, typ *NetworkType, force, traffic bool) (bool, func(
 	return d.MustGetAlive(typ), func() { d.informDialerGroupUpdate(u) }
 }
 
+// VerifC15Obs = markAvailable alone (sample stored, flag raised, update taken); the returned closure is
+// the deferred informDialerGroupUpdate(update) — the two halves of the success branch of Dialer.check,
+// which the probe pool runs concurrently with other reports about the same dialer.
+func VerifC15Obs(d *Dialer, typ *NetworkType, lat time.Duration) func() {
+	u, _ := d.markAvailable(typ, lat)
+	return func() { d.informDialerGroupUpdate(u) }
+}
+
+// VerifC15Disagree lists the members whose membership in the set's alive list differs from the
+// dialer-side Alive flag of the set's health domain (indices into dialers, sorted).
+func VerifC15Disagree(a *AliveDialerSet, dialers []*Dialer) []int {
+	a.mu.RLock()
+	in := make(map[*Dialer]bool, len(a.aliveEntries))
+	for k := range a.aliveEntries {
+		in[a.aliveEntries[k].dialer] = true
+	}
+	a.mu.RUnlock()
+	var out []int
+	for i, d := range dialers {
+		if in[d] != d.MustGetAlive(a.CheckTyp) {
+			out = append(out, i)
+		}
+	}
+	return out
+}
+
 // VerifC15Traffic = ReportAvailableTraffic (data-UDP revival by traffic); returns whether the sets
 // were told anything.
 func VerifC15Traffic(d *Dialer, typ *NetworkType) bool {
